@@ -176,6 +176,10 @@ func (s *Sim) oracleC03(op Op) {
 			app := p.Apps[al.App]
 			if app == nil {
 				st := "app-unknown"
+				if sa := s.shim.Apps[al.App]; sa != nil && sa.Status == "removed" {
+					// allocated while (or after) the application was being removed
+					s.shim.taint(al.App, "removal-race")
+				}
 				if d := p.Done[al.App]; d != nil {
 					st = "app-" + d.State
 					if d.State == "Failed" || d.State == "Failing" {
@@ -220,6 +224,10 @@ func (s *Sim) oracleC03(op Op) {
 			al := a.Allocs[k]
 			nid, ok := seenOnNode[k]
 			if !ok {
+				if n := s.shim.Nodes[al.Node]; n != nil && n.Status == "removed" {
+					// bound to a node while (or after) the node was being removed: requests on different channels raced
+					s.shim.taint(id, "removal-race")
+				}
 				s.violate("C03", "app-alloc-not-on-node", "", "application %s lists allocation %s on node %s, no node holds it", id, k, al.Node)
 			} else if nid != al.Node {
 				s.violate("C03", "app-alloc-wrong-node", "", "application %s lists allocation %s on node %s, node %s holds it", id, k, al.Node, nid)
@@ -272,6 +280,9 @@ func (s *Sim) oracleC03(op Op) {
 			continue
 		}
 		if n := s.shim.Nodes[m.Node]; n != nil && n.Status == "removed" {
+			if ca := p.Apps[m.App]; ca != nil && ca.Allocs[k] != nil {
+				s.shim.taint(m.App, "removal-race")
+			}
 			s.violate("C04", "bound-on-removed-node", "", "the shim still holds %s as bound on node %s which it removed: the core never released it", k, m.Node)
 			continue
 		}
